@@ -90,6 +90,14 @@ def run(ctx):
   ok = bool(hs) and any(isinstance(s, ast.If) and u(s.test) == 'not skip_unknown' and isinstance(s.body[-1], ast.Raise) and s.body[-1].exc is None for s in hs[0].body)
   ctx.check(ok, 'C15.consumer', construct(pc), 'a failing import is swallowed only when skip_unknown is set', 'ImportError is swallowed unconditionally (or never)', pc.loc(hs[0]) if hs else pc.loc(), instance='import')
 
+  # a skipped (missing) import leaves no trace in the configuration
+  from ..resolve import store_accesses as _sa
+  _, acc_i = _sa(prog, 'config', ['_IMPORTS'])
+  for a_ in [x for x in acc_i if x.func is pc and x.kind == 'write' and x.method in ('add', 'update')]:
+    fs_ = facts_at(g2, facts2, enclosing_stmt(a_.node)) or frozenset()
+    ctx.check(('call', 'config.ParseContext.process_import') in fs_, 'C15.consumer', construct(pc), 'an import is recorded only after it was processed successfully',
+              'an import statement is recorded before / without having been processed: the import of a missing module that skip_unknown skips is still '
+              'recorded, so the result differs from the text without that import (config_str() then fails to import it)', pc.loc(a_.node), instance='skipped-import-untraced')
   # ---- C15.placeholder
   reference_delegate(ctx, 'C15.placeholder')
   uk = ctx.cls('config._UnknownConfigurableReference')
@@ -104,6 +112,11 @@ def run(ctx):
           any(isinstance(c, ast.Call) and prog.resolve_call(hk, c) in prog.noreturn for c in ast.walk(n)) for n in walk_local(hk.node))
   ctx.check(ok, 'C15.placeholder', construct(hk), 'finalize rejects a placeholder at any nesting depth, naming the binding', 'the unknown-reference finalize hook no longer raises on placeholders at any depth', hk.loc(), instance='finalize')
 
+  from .common import loop_examines_all
+  loop_examines_all(ctx, 'C15.placeholder', 'config.find_unknown_references_hook',
+                    lambda f_, n_: n_.kind == 'test' and '_UnknownConfigurableReference' in u(n_.ast) or
+                    (n_.kind == 'for' and '_iterate_flattened_values' in u(n_.ast.iter)),
+                    'placeholders are looked for in every binding, macros included')
   # ---- C15.forward
   cons = [c for c in walk_local(pc.node) if isinstance(c, ast.Call) and prog.resolve_call(pc, c) == 'config.ParserDelegate']
   ok = bool(cons) and all(len(c.args) == 1 and u(c.args[0]) == 'skip_unknown' for c in cons)
